@@ -25,4 +25,9 @@ CHECKS["C01"] = {
     "note": "Trusted: the generated Go item types (items_gen.go), the static capability table for pool values, fmt's %v as oracle of the last arm. The space of dynamic types is infinite; the dispatch depends only on (kind, capability set), which is enumerated completely.",
     "technique": MBT,
 }
+CHECKS["C11"] = {
+    "text": "Error routing (row's own list before attach, table's list after; misuse; callback failures at add and render time; raw containers of the three kinds with AddError/AddErrorList over nil/empty/mixed/aliased lists) is part of the TLA+ table model; TLC explores all container-operation sequences and all table histories with a failing callback at every level within the bounds, checking exactly-once / append-only invariants on the model; every transition and seeded random longer histories are executed on the real library and TLC validates every error list (same multiset, per-source order, nil iff empty, no nil entries, no panic) against the model.",
+    "note": "Trusted: unique error identities created by the driver; errors the library creates itself are compared as the token LIB. Order is demanded only within one source, as the statement says.",
+    "technique": MBT,
+}
 NOT_APPLICABLE = {}
